@@ -87,7 +87,8 @@ fn compare(rep: &mut Report, a: &RunOut, b: &RunOut, sched: &str) {
             (Outcome::Ok, Outcome::Ok) => true,
             (Outcome::Err, Outcome::Panic) => !same_api,
             (Outcome::Err, Outcome::Err) => same_api || ka == 4 || ka == 17,
-            (Outcome::Panic, Outcome::Panic) => ka == 5,
+            // (huge requests through alloc_slice_try_fill_{with,iter}: the same infallible method on both sides)
+            (Outcome::Panic, Outcome::Panic) => ka == 5 || (ka == 17 && a.descr[i].contains("slice_try_fill") && a.descr[i] == b.descr[i]),
             _ => false,
         };
         if !good {
